@@ -608,13 +608,20 @@ class Ruby(ContentElement):
     if self.has_children():
       raise RuntimeError("Remove all ruby children before adding more.")
 
+    children = list(children)
+
     ts = [type(x) for x in children]
 
     if ts not in [[Rb, Rt], [Rb, Rp, Rt, Rp], [Rbc, Rtc], [Rbc, Rtc, Rtc]]:
       raise ValueError("Children of ruby do not conform to requirements")
 
-    for child in children:
-      super().push_child(child)
+    try:
+      for child in children:
+        super().push_child(child)
+    except Exception:
+      # all or nothing: a partial list does not conform to requirements
+      self.remove_children()
+      raise
 
   def remove_children(self):
     '''Remove all children of the element.'''
@@ -755,7 +762,11 @@ class Rtc(ContentElement):
     raise RuntimeError("Rtc children must be removed using `remove_children`")
 
   def push_children(self, children: typing.Iterable[ContentElement]):
-    cs = list(children)
+    children = list(children)
+
+    # the requirements apply to the existing children followed by the new ones
+
+    cs = list(self) + children
 
     if len(cs) > 2 and isinstance(cs[0], Rp) and isinstance(cs[-1], Rp):
       cs = cs[1:-1]
@@ -763,8 +774,17 @@ class Rtc(ContentElement):
     if not all(isinstance(x, Rt) for x in cs):
       raise ValueError("Children of rtc do not conform to requirements")
 
-    for child in children:
-      super().push_child(child)
+    pushed = []
+
+    try:
+      for child in children:
+        super().push_child(child)
+        pushed.append(child)
+    except Exception:
+      # all or nothing: a partial list may not conform to requirements
+      for child in pushed:
+        super().remove_child(child)
+      raise
 
   def remove_children(self):
 
